@@ -135,7 +135,7 @@ PROPS = {
     ),
     "C01": dict(
         proof_modules=["KsVerif.Proofs.C01"],
-        families=["redis.raw", "amqp.raw", "kafka.raw", "http2.raw"],
+        families=["redis.raw", "amqp.raw", "kafka.raw", "kafka.layout", "http2.raw"],
         rule="amqp.raw: corpus of frames with lengths far beyond the data, negative lengths, bad frame types and "
              "end octets (each with every two-piece split and both stream ends), every prefix of well-formed halves, "
              "byte corruptions with boundary values, random bytes, random splits; redis.raw: fixed corpus of inputs that historically broke the reader (each with every two-piece split, "
@@ -213,7 +213,7 @@ PROPS = {
     ),
     "C06": dict(
         proof_modules=["KsVerif.Proofs.C06"],
-        families=["kafka.conv", "kafka.raw"],
+        families=["kafka.conv", "kafka.raw", "kafka.layout"],
         facts=[],
         rule="kafka.conv: request / response streams written by github.com/segmentio/kafka-go/protocol (the independent "
              "encoder: a dependency of /repo, cross-checked byte for byte against the Lean spec encoder over schemas "
@@ -224,7 +224,11 @@ PROPS = {
              "non-ASCII and null where nullable, arrays of 0-3 elements incl. null, record batches of 1-3 records with "
              "null / empty / long keys, values and 0-2 headers; kafka.raw: the same streams with 0-3 mutations (byte flips, "
              "truncation, boundary-valued 16/32-bit fields, insertions, deletions, runs of varint continuation bytes), "
-             "relabelled versions and random bytes - model = dissector, no panic; non-trivial = at least one response",
+             "relabelled versions and random bytes - model = dissector, no panic; non-trivial = at least one response; "
+             "kafka.layout: for every (api key 0-51, version 0-17) at which the running dissector selects a layout (learnt by "
+             "probing it, not from kafka-go), a request and a response written field by field along that layout in the classic "
+             "encodings (0-3 array elements, null / empty / non-UTF-8 strings, boundary integers, record batches), some pairs "
+             "answered out of order - model = dissector on every layout row, deeply, including the APIs kafka-go cannot encode",
         trusted_base=["Kafka/Schema.lean + Model.lean: hand-written model of decode.go (decoder, reflective walk, records) and of "
                       "ReadRequest / ReadResponse / the matcher; layouts from GenKafkaLayouts.lean (the struct the running "
                       "dissector selects per api key x version -1..17, read back by reflection; int16 extremes checked)",
@@ -232,7 +236,7 @@ PROPS = {
                       "GenKafkaProtocol.lean (struct tags of kafka-go v0.4.38, the version /repo requires)",
                       "kafka-go's encoder as the notion of a well-formed Kafka stream"] + LIB,
         assumptions=["versions beyond kafka-go's ranges (e.g. Metadata 9+, ApiVersions 3+, Fetch 12+) have no independent encoder "
-                     "in the sandbox and are covered by the framing theorems and kafka.raw only",
+                     "in the sandbox and are covered by the framing theorems, kafka.raw and kafka.layout (model = dissector along the dissector's own layout) only",
                      "a null string is reported as the empty string (Go strings have no null)",
                      "the two halves are dissected one after the other (scheduling is C09/C10)",
                      "bufio.Reader Read/Discard depend on the remaining bytes only"],
